@@ -912,6 +912,31 @@ impl Callbacks for Cb {
         }
         root.put("aliases", J::Arr(aliases));
 
+        // ---- re-exports (`pub use inner::Item;`): the path an item is reachable under, next to the path it is defined at
+        let mut reexports = Vec::new();
+        for ldid in tcx.hir_crate_items(()).definitions() {
+            if !matches!(tcx.def_kind(ldid), DefKind::Mod) {
+                continue;
+            }
+            let modpath = path_str(tcx, ldid.to_def_id());
+            for child in tcx.module_children_local(ldid) {
+                if child.reexport_chain.is_empty() {
+                    continue;
+                }
+                if let Some(did) = child.res.opt_def_id() {
+                    if !did.is_local() {
+                        continue;
+                    }
+                    if !matches!(tcx.def_kind(did), DefKind::Struct | DefKind::Enum | DefKind::Union | DefKind::Fn | DefKind::Const { .. } | DefKind::TyAlias | DefKind::Trait | DefKind::Static { .. }) {
+                        continue;
+                    }
+                    let public = if modpath.is_empty() { child.ident.name.to_string() } else { format!("{}::{}", modpath, child.ident.name) };
+                    reexports.push(J::obj().set("path", J::s(public)).set("target", J::s(path_str(tcx, did))).set("vis", J::s(format!("{:?}", child.vis))));
+                }
+            }
+        }
+        root.put("reexports", J::Arr(reexports));
+
         // ---- consts and statics
         let mut consts = Vec::new();
         let mut statics = Vec::new();
